@@ -238,7 +238,16 @@ type argset struct {
 	slots []*slot
 	rec   *h.Rec
 	seen  map[string]bool
+	// pool: in scribbling mode an argument buffer is reused for the next
+	// argument of the same name (in this call or, through withPool, in later
+	// steps of the same case) with its new content - what a caller that
+	// recycles one buffer does. A reference retained by the library (say, as the
+	// key of a cache) then sees different bytes under the same address.
+	pool map[string][]byte
 }
+
+// withPool lets several argsets of one case share recycled buffers.
+func (a *argset) withPool(p map[string][]byte) *argset { a.pool = p; return a }
 
 type slot struct {
 	name string
@@ -251,10 +260,23 @@ const (
 	argScribble  = uint64(1) << 63
 	argFlavoured = uint64(1) << 62 // no meaning of its own: makes a drawn Args word non-zero
 	sentinel     = 0xA5
+	spareCap     = 96 // room for an append of a default id, a digest, a signature
 )
 
 func newArgs(mode uint64, rec *h.Rec) *argset {
-	return &argset{mode: mode, rec: rec, seen: map[string]bool{}}
+	return &argset{mode: mode, rec: rec, seen: map[string]bool{}, pool: map[string][]byte{}}
+}
+
+// alloc returns a buffer of n bytes, recycled from the pool when scribbling.
+func (a *argset) alloc(name string, n int) []byte {
+	if a.scribbling() {
+		if old := a.pool[name]; cap(old) >= n && n > 0 {
+			delete(a.pool, name)
+			a.label("arg:recycled-buffer")
+			return old[:n:n]
+		}
+	}
+	return make([]byte, n)
 }
 
 func (a *argset) scribbling() bool { return a != nil && a.mode&argScribble != 0 }
@@ -283,13 +305,16 @@ func (a *argset) in(name string, b []byte) []byte {
 		return []byte{}
 	case n == 0:
 		a.label("arg:buf[:0]")
-		full = bytes.Repeat([]byte{sentinel}, 9)
+		full = a.alloc(name, spareCap)
 	case sel&4 != 0:
 		a.label("arg:spare-capacity")
-		full = append(cp(b), bytes.Repeat([]byte{sentinel}, 11)...)
+		full = a.alloc(name, n+spareCap)
 	default:
-		full = cp(b)
-		full = full[:n:n]
+		full = a.alloc(name, n)
+	}
+	copy(full, b)
+	for i := n; i < len(full); i++ {
+		full[i] = sentinel
 	}
 	a.slots = append(a.slots, &slot{name: name, full: full, n: n, orig: cp(b)})
 	return full[:n]
@@ -314,6 +339,9 @@ func (a *argset) done(callee string) error {
 		a.label("arg:scribbled-after-call")
 		for _, s := range a.slots {
 			scribble(s.full)
+			if cap(s.full) >= cap(a.pool[s.name]) {
+				a.pool[s.name] = s.full
+			}
 		}
 	}
 	return nil
